@@ -84,11 +84,12 @@ Definition commit (st : store) (ops : list wop) : store := fold_left apply_op op
 
 (* ---- filter_block ---- *)
 
-(* the previous transaction of an input: the store first, then the earlier transactions of this block *)
+(* the previous transaction of an input: the earlier transactions of this block first (their position in this
+   block is authoritative, whatever a fetched or abandoned-branch record says), then the store *)
 Definition find_prev (st : store) (bn : N) (local : list (txid * (N * tx))) (prev : txid) : option (N * N * tx) :=
-  match a_get N.eqb prev (txs st) with
-  | Some v => Some v
-  | None => match a_get N.eqb prev local with Some (ti, t) => Some (bn, ti, t) | None => None end
+  match a_get N.eqb prev local with
+  | Some (ti, t) => Some (bn, ti, t)
+  | None => a_get N.eqb prev (txs st)
   end.
 
 Definition input_ops (st : store) (bn ti : N) (t : tx) (local : list (txid * (N * tx))) (ii : N) (inp : txid * N) : list wop :=
